@@ -99,8 +99,15 @@ def run(ctx):
     ok = sorted(whichs) == ['SEM', 'SIZESEM'] and len(clears) == 1
     ctx.ob('R12.2', 'close() closes both semaphores and clears the queue', ok, ctx.where(c), 'closes %s, clears %d' % (whichs, len(clears)), construct='close:shape')
     if ok:
+        # the semaphore that is_closed() reads must be closed before the queue is cleared; the other one only needs to be
+        # closed before close() returns when adders re-check is_closed() under the queue lock (otherwise before the clear too)
+        flag = r.closed_flag_sem()
+        recheck = r.add_helper_rechecks_closed()
         for x, w in closes:
-            ctx.ob('R12.2', 'semaphore %s closed before the queue is cleared' % w, can.dominates(x.idx, clears[0].idx), ctx.where(c, x.term.line), '', construct='close:order:' + w)
+            need = (w == flag) or not recheck or flag is None
+            if need:
+                ctx.ob('R12.2', 'semaphore %s closed before the queue is cleared' % w, can.dominates(x.idx, clears[0].idx), ctx.where(c, x.term.line),
+                       'the queue is cleared while %s can still report the pool as open: an object added or returned in between stays in the closed pool' % w, construct='close:order:' + w)
         rets = can.exits()['return']
         for x in [y for y, w in closes] + clears:
             esc = can.reach([0], ('normal',), avoid=[x.idx])
@@ -129,40 +136,10 @@ def run(ctx):
     if cu and adds:
         ctx.ob('R12.2', 'clean-up is the last step of the return path', all(dan.dominates(a.idx, x.idx) for a, w in adds for x in cu), ctx.where(d), '', construct='return:cleanup-last')
 
-    # ---- R12.4 an add racing close() must not leave its object in the closed pool ------------------------------
-    # close() closes the semaphores and then clears the queue under the queue lock.  An add() that obtained its size
-    # permit just before that pushes afterwards; unless the push is decided under the same lock on the pool not being
-    # closed (or is followed by the clean-up that the return path performs) the object stays in the closed pool.
-    h = r.ADD_HELPER
-    han = prog.an(h)
-    ctx.saw(h)
-    for pblk in [x for x, m in r.queue_calls(h) if m == 'push']:
-        gl = [i for i, l in enumerate(h.locals) if l['ty'].startswith('std::sync::MutexGuard<')]
-        guarded = False
-        for d_ in sorted(han.doms(('normal',)).get(pblk.idx) or ()):
-            sw = h.blocks[d_]
-            if sw.term.kind != 'switch' or sw.term.j.get('dty') != 'bool':
-                continue
-            src = sources(han, sw.term.discr)
-            if not any(s[0] == 'call' and (s[1].endswith('is_closed') or s[1].endswith('try_acquire_many')) for s in src):
-                continue
-            arms = dict(sw.term.switch_arms())
-            only_false = pblk.idx in han.reach([arms['false']], ('normal',), avoid=[arms['true']]) and pblk.idx not in han.reach([arms['true']], ('normal',), avoid=[arms['false']])
-            st = han.state_at_term(d_)
-            # the closed test itself runs while the queue guard is live
-            test_calls = [s[2] for s in src if s[0] == 'call' and (s[1].endswith('is_closed') or s[1].endswith('try_acquire_many'))]
-            under = all((han.state_at_term(tc) or (0, 0))[0] & sum(1 << g for g in gl) for tc in test_calls)
-            if only_false and under:
-                guarded = True
-        followed = False
-        reg_clear = [x for x in h.blocks if x.term.kind == 'call' and not x.cleanup and x.term.rcallee in prog.bodies and r.CLEAR is not None and r.CLEAR.path in prog.region([x.term.rcallee])]
-        if reg_clear:
-            rets = han.exits()['return']
-            esc = han.reach_after(pblk.idx, ('normal',), avoid=[x.idx for x in reg_clear])
-            followed = not any(e in esc for e in rets)
-        ctx.ob('R12.4', 'a new object is published only into an open pool (decided under the queue lock) or cleaned up afterwards', guarded or followed, ctx.where(h, pblk.term.line),
-               'add()/try_add() racing close(): the size permit is obtained before close() closes the semaphore, the object is pushed after close() cleared the queue and stays in the closed pool'
-               if not (guarded or followed) else '', construct='add-vs-close:publish-into-closed-pool', sites=[ctx.where(h, pblk.term.line)])
+    from .rules_C05 import cleanup_unconditional
+    cleanup_unconditional(ctx, r, 'R12.2')
+
+    publish_guard(ctx, r, 'R12.4')
 
     # ---- R12.3 Closed mapping ---------------------------------------------------------------------------
     UERR = 'deadpool::unmanaged::errors::PoolError'
@@ -196,3 +173,42 @@ def run(ctx):
                 ctx.ob('R12.3', 'a failed blocking acquire maps to Closed', made == ['Closed'], ctx.where(cb), 'constructs %s' % made, construct='map-acquire:' + cb.name)
     ctx.not_decided += ['that tokio wakes all waiters on close() (trusted)', 'user Drop of T runs under the queue lock inside clear() (noted, outside the property)']
     ctx.assumptions += ['a std Vec never holds more than isize::MAX elements', 'tokio Semaphore::close semantics']
+
+
+def publish_guard(ctx, r, RULE):
+    prog = ctx.prog
+    # ---- R12.4 an add racing close() must not leave its object in the closed pool ------------------------------
+    # close() closes the semaphores and then clears the queue under the queue lock.  An add() that obtained its size
+    # permit just before that pushes afterwards; unless the push is decided under the same lock on the pool not being
+    # closed (or is followed by the clean-up that the return path performs) the object stays in the closed pool.
+    h = r.ADD_HELPER
+    han = prog.an(h)
+    ctx.saw(h)
+    for pblk in [x for x, m in r.queue_calls(h) if m == 'push']:
+        gl = [i for i, l in enumerate(h.locals) if l['ty'].startswith('std::sync::MutexGuard<')]
+        guarded = False
+        for d_ in sorted(han.doms(('normal',)).get(pblk.idx) or ()):
+            sw = h.blocks[d_]
+            if sw.term.kind != 'switch' or sw.term.j.get('dty') != 'bool':
+                continue
+            src = sources(han, sw.term.discr)
+            if not any(s[0] == 'call' and (s[1].endswith('is_closed') or s[1].endswith('try_acquire_many')) for s in src):
+                continue
+            arms = dict(sw.term.switch_arms())
+            only_false = pblk.idx in han.reach([arms['false']], ('normal',), avoid=[arms['true']]) and pblk.idx not in han.reach([arms['true']], ('normal',), avoid=[arms['false']])
+            st = han.state_at_term(d_)
+            # the closed test itself runs while the queue guard is live
+            test_calls = [s[2] for s in src if s[0] == 'call' and (s[1].endswith('is_closed') or s[1].endswith('try_acquire_many'))]
+            under = all((han.state_at_term(tc) or (0, 0))[0] & sum(1 << g for g in gl) for tc in test_calls)
+            if only_false and under:
+                guarded = True
+        followed = False
+        reg_clear = [x for x in h.blocks if x.term.kind == 'call' and not x.cleanup and x.term.rcallee in prog.bodies and r.CLEAR is not None and r.CLEAR.path in prog.region([x.term.rcallee])]
+        if reg_clear:
+            rets = han.exits()['return']
+            esc = han.reach_after(pblk.idx, ('normal',), avoid=[x.idx for x in reg_clear])
+            followed = not any(e in esc for e in rets)
+        ctx.ob(RULE, 'a new object is published only into an open pool (decided under the queue lock) or cleaned up afterwards', guarded or followed, ctx.where(h, pblk.term.line),
+               'add()/try_add() racing close(): the size permit is obtained before close() closes the semaphore, the object is pushed after close() cleared the queue and stays in the closed pool'
+               if not (guarded or followed) else '', construct='add-vs-close:publish-into-closed-pool', sites=[ctx.where(h, pblk.term.line)])
+
